@@ -31,6 +31,9 @@ VOCAB = [
     ("vp_sink", "hit"), ("numpy", "dtype"), ("torch.storage", "_load_from_bytes"),
     # a dotted (protocol 4) name: the callee is reached by attribute traversal through a benign module
     ("codecs", "builtins.len"), ("collections", "abc.sys.exit"),
+    # a builtin reached by a dotted qualified name whose last component is one of the attribute names fickling's own
+    # output uses for state application (update / __setstate__)
+    ("builtins", "dict.update"), ("builtins", "set.update"), ("builtins", "BaseException.__setstate__"),
 ]
 
 
